@@ -158,13 +158,21 @@ def builtin_sem(op, L, R, le, re_):
     w = 2 * max(L.bits, R.bits, N) + 4
     lm, rm = wval(le, L, w), wval(re_, R, w)           # mathematical values
     # operands after conversion to the common type (value-preserving for signed Res, modulo 2^N for unsigned Res)
-    lc = '((%s)%s)' % (Res.ctype, lm)
-    rc = '((%s)%s)' % (Res.ctype, rm)
+    # C++ conversion of each operand to the common type, written as the cast chain itself (no detour through the wide vector,
+    # so that CBMC sees the same operand expressions as in the extracted code)
+    lc = '((%s)(%s)%s)' % (Res.ctype, L.sctype, le)
+    rc = '((%s)(%s)%s)' % (Res.ctype, R.sctype, re_)
     lcm, rcm = wval(lc, Res, w), wval(rc, Res, w)
     req = []
     if op in ('add', 'subtract', 'multiply'):
         sym = {'add': '+', 'subtract': '-', 'multiply': '*'}[op]
         ex = '(%s %s %s)' % (lcm, sym, rcm)
+        if op == 'multiply':
+            # product modulo 2^N through the shared VP_MULn (machine multiply, or one uninterpreted function when a job
+            # abstracts multiplication); 'defined' = the signed product does not overflow, through the shared predicate
+            if Res.signed:
+                req.append('!VP_SMULOVF%d(%s, %s)' % (N, lc, rc))
+            return dict(res=Res, requires=req, value='VP_MUL%d(%s, %s)' % (N, lc, rc), w=w)
         if Res.signed:
             req.append('%s >= %s && %s <= %s' % (ex, wconst(Res.min, w), ex, wconst(Res.max, w)))
         return dict(res=Res, requires=req, value='((%s)%s)' % (Res.ctype, ex), w=w)
@@ -175,8 +183,8 @@ def builtin_sem(op, L, R, le, re_):
             req.append('!(%s == %s && %s == -1)' % (lcm, wconst(Res.min, w), rcm))
         # the quotient is computed at the width and signedness of the common type, exactly as the language defines it
         # (and as the extracted code does): no second divider of another width enters the proof
-        ls_, rs_ = '((%s)%s)' % (Res.sctype, lc), '((%s)%s)' % (Res.sctype, rc)
-        return dict(res=Res, requires=req, value='((%s)(%s %s %s))' % (Res.ctype, ls_, sym, rs_), w=w)
+        macro = 'VP_%s%s%d' % ('S' if Res.signed else 'U', 'DIV' if op == 'divide' else 'REM', Res.bits)
+        return dict(res=Res, requires=req, value='%s(%s, %s)' % (macro, lc, rc), w=w)
     if op in ('bitwise_and', 'bitwise_or', 'bitwise_xor'):
         sym = {'bitwise_and': '&', 'bitwise_or': '|', 'bitwise_xor': '^'}[op]
         return dict(res=Res, requires=[], value='((%s)(%s %s %s))' % (Res.ctype, lc, sym, rc), w=w)
